@@ -138,3 +138,63 @@ Section DFSProofs.
       destruct (D1 x Hin (fun f => f)) as [_ [Hn _]]. auto.
   Qed.
 End DFSProofs.
+
+(* ---- the sort of findImportedPartsInJSOrder puts the entry point first ---- *)
+Lemma insert_key_In k l x : In x (insert_key k l) -> x = k \/ In x l.
+Proof.
+  induction l as [|h r IH]; cbn [insert_key]; intros H.
+  - destruct H as [<-|[]]. left. reflexivity.
+  - destruct (key_less h k).
+    + destruct H as [<-|H]; [right; left; reflexivity|]. destruct (IH H) as [->|Hr]; [left; reflexivity|right; right; exact Hr].
+    + destruct H as [<-|H]; [left; reflexivity|right; exact H].
+Qed.
+
+Lemma sort_keys_In l x : In x (sort_keys l) -> In x l.
+Proof.
+  induction l as [|k l IH]; cbn [sort_keys fold_right]; intros H; [exact H|].
+  apply insert_key_In in H as [->|H]; [left; reflexivity|right; apply IH; exact H].
+Qed.
+
+Definition kdist (k : okey) : Z := fst (fst k).
+
+Lemma sort_head_zero l :
+  (exists k, In k l /\ kdist k = 0) -> (forall k, In k l -> 0 <= kdist k) ->
+  exists h r, sort_keys l = h :: r /\ kdist h = 0.
+Proof.
+  induction l as [|k l IH]; intros [k0 [Hin H0]] Hnn; [contradiction|].
+  cbn [sort_keys fold_right]. fold (sort_keys l).
+  destruct (sort_keys l) as [|h r] eqn:Es.
+  - cbn [insert_key]. exists k, []. split; [reflexivity|].
+    destruct Hin as [->|Hin]; [exact H0|]. exfalso.
+    destruct l as [|k1 l1]; [contradiction|]. cbn [sort_keys fold_right] in Es.
+    destruct (fold_right insert_key [] l1); cbn [insert_key] in Es; [discriminate|]. destruct (key_less o k1); discriminate.
+  - cbn [insert_key]. destruct k as [[dk tk] ik], h as [[dh th] ih]. cbn [key_less].
+    assert (Hh : In (dh, th, ih) (k0 :: l) \/ True) by (right; exact I).
+    assert (Hhl : In (dh, th, ih) l) by (apply sort_keys_In; rewrite Es; left; reflexivity).
+    pose proof (Hnn _ (or_intror Hhl)) as Hdh. pose proof (Hnn _ (or_introl eq_refl)) as Hdk. unfold kdist in *. cbn [fst] in *.
+    destruct ((dh <? dk) || ((dh =? dk) && (th <? tk))) eqn:E.
+    + exists (dh, th, ih), (insert_key (dk, tk, ik) r). split; [reflexivity|]. cbn [fst].
+      destruct Hin as [<-|Hin].
+      * cbn [fst] in H0. subst dk. lia.
+      * destruct (IH (ex_intro _ k0 (conj Hin H0)) (fun k Hk => Hnn k (or_intror Hk))) as [h' [r' [E' H']]].
+        inversion E'; subst. exact H'.
+    + exists (dk, tk, ik), ((dh, th, ih) :: r). split; [reflexivity|]. cbn [fst].
+      destruct Hin as [<-|Hin]; [exact H0|].
+      destruct (IH (ex_intro _ k0 (conj Hin H0)) (fun k Hk => Hnn k (or_intror Hk))) as [h' [r' [E' H']]].
+      inversion E'; subst. cbn [fst] in H'. subst dh. lia.
+Qed.
+
+(* with a single entry point (distance 0, every other file of the chunk at a positive distance)
+   the sorted list starts with the entry point *)
+Lemma entry_sorts_first_all keys e t0 :
+  In (0, t0, e) keys -> (forall k, In k keys -> k = (0, t0, e) \/ 0 < kdist k) ->
+  exists rest, chunk_sorted keys = e :: rest.
+Proof.
+  intros Hin Hall.
+  destruct (sort_head_zero keys) as [h [r [Es H0]]].
+  - exists (0, t0, e). split; [exact Hin|reflexivity].
+  - intros k Hk. destruct (Hall k Hk) as [->|H]; [cbn; lia|lia].
+  - assert (Hh : In h keys) by (apply sort_keys_In; rewrite Es; left; reflexivity).
+    destruct (Hall h Hh) as [->|H]; [|lia].
+    unfold chunk_sorted. rewrite Es. cbn [map snd]. eexists. reflexivity.
+Qed.
